@@ -245,7 +245,7 @@ def run(ctx):
     proofs = {}
     if dump is not None:
         ctx.copy_props("C08/C08_defs.v", "C08/C08_faces.v", "C08/C08_measure.v", "C08/C08_subparam.v", "C08/C08_invmap.v", "C08/C08_pointin.v",
-                       "C08/C08_pointin2d.v", "C08/C08_eval.v", "C08/C08_conform.v", "C08/C08_locate.v", "C08/C08_locate2d.v", "C08/C08_evalpoly.v", "C08/C08_cur_invmap.v", "C08/C08_cur_pointin.v", "C08/C08_measure_thorough.v")
+                       "C08/C08_pointin2d.v", "C08/C08_eval.v", "C08/C08_conform.v", "C08/C08_locate.v", "C08/C08_locate2d.v", "C08/C08_evalpoly.v", "C08/C08_cur_invmap.v", "C08/C08_cur_pointin.v", "C08/C08_measure_thorough.v", "C08/C08_moments_thorough.v")
         r0 = ctx.coq(["C08_defs.v", "Gen_Elems.v", "Gen_Gauss.v", "Gen_Faces.v"], timeout=300, count=False)
         if not r0.ok:
             ctx.obligation("generated files compile", False, r0.log[-1500:])
@@ -268,11 +268,13 @@ def run(ctx):
                       [("C08_pointin.v", None), ("C08_locate.v", "C08_pointin.v")] + ([("C08_cur_pointin.v", "C08_locate.v")] if pir is not None else []) + \
                       [("C08_pointin2d.v", "C08_pointin.v"), ("C08_locate2d.v", "C08_pointin2d.v"), ("C08_conform.v", None)]
             chains = [chain_a, chain_b]
-            if ctx.tier == "thorough":
-                # general (non-affine) straight-sided hexahedra / prisms, 24 / 18 symbolic vertex coordinates: ~7 min
-                chain_a.append(("C08_measure_thorough.v", "C08_subparam.v"))
             with ThreadPoolExecutor(max_workers=2) as ex:
                 list(ex.map(chain, chains))
+            if ctx.tier == "thorough":
+                # general (non-affine) straight-sided hexahedra / prisms, 24 / 18 symbolic vertex coordinates:
+                # volumes (~4 min) and per-vertex first moments (~7 min), side by side
+                with ThreadPoolExecutor(max_workers=2) as ex:
+                    list(ex.map(chain, [[("C08_measure_thorough.v", "C08_subparam.v")], [("C08_moments_thorough.v", "C08_subparam.v")]]))
     ctx.log("theorem files done; collecting the correspondence results")
     rc, out, err = corr_fut.result()
     corr_pool.shutdown()
